@@ -61,7 +61,9 @@ import (
 // pipe.
 func Decode(r io.Reader, colorTransform *int, budget *membudget.Budget) (io.ReadCloser, error) {
 	pr, pw := io.Pipe()
+	done := make(chan struct{})
 	go func() {
+		defer close(done)
 		bw := bufio.NewWriter(pw)
 		if err := jpeg.DecodeStream(r, colorTransform, bw, budget); err != nil {
 			pw.CloseWithError(err)
@@ -73,5 +75,20 @@ func Decode(r io.Reader, colorTransform *int, budget *membudget.Budget) (io.Read
 		}
 		pw.Close()
 	}()
-	return pr, nil
+	return &decodeReader{PipeReader: pr, done: done}, nil
+}
+
+// decodeReader is the consumer end of the decoder pipe.
+type decodeReader struct {
+	*io.PipeReader
+	done <-chan struct{}
+}
+
+// Close stops the producer goroutine and waits until it has finished.  Once
+// Close has returned, the producer no longer reads from the source, so the
+// caller may release or reuse it.
+func (r *decodeReader) Close() error {
+	err := r.PipeReader.Close()
+	<-r.done
+	return err
 }
